@@ -34,6 +34,7 @@ func main() {
 	// ---- part 1
 	pp := newPreprocCheck(r, dir, db, kMem)
 	pp.startDB()
+	xr := startExtras(dir, pp.noDB)
 	t0 := time.Now()
 	ls := runLines(r, maxExtras)
 	ls.report(r)
@@ -44,7 +45,7 @@ func main() {
 	ps := pp.finish(r)
 	debugf("part 2: %.1fs", time.Since(t0).Seconds())
 	t0 = time.Now()
-	xs := runExtras(r, dir, pp.noDB)
+	xs := xr.finish(r)
 	debugf("part 2, bulk and lexical files: %.1fs", time.Since(t0).Seconds())
 
 	// ---- part 3: goroutine schedules of the preprocessor (auxiliary binary)
@@ -116,7 +117,7 @@ func main() {
 	r.Set("preproc_database_core_alphabet", dbCore[:len(db.core)])
 	r.Set("preproc_database_rocksdb_compiles", 2*ps.dbPairs)
 
-	r.Set("rule", fmt.Sprintf("part 1: for each of the 17 line types, every vector of the core option lattice (each optional field absent / explicitly default / other value, separator ',' or ':', trailing empty fields trimmed or written) plus every vector with 1..%d fields carrying an edge value (escaped bytes, wildcard, upper case, trailing/doubled dot, root, IPv6 / IPv4-mapped, 0/1/max/overflow, escaped locations ...) over the all-absent, all-default and all-other contexts; each line decoded, re-serialised, re-decoded and compiled by the real codec under 4 configurations (v1/v2 keys x CDB-style/RocksDB-style codec) with a fresh codec per decode; failing vectors are minimised by resetting options to the base. part 2: real RocksDB (v1 and v2 keys) compiled before and after the real Codec.Preprocess and the raw dumps compared for every set of <=%d lines of the %d-line alphabet plus every set of <=%d lines of its %d-line core, each set written once in alphabet order (one %% line per map, the indented %% line, the SOA serial variants, one ordinary line); the same comparison on the parsed key/value stream (dnsdata.Parse with the compiler's codec) for every sequence of <=%d lines of the full alphabet. states = distinct lines + files; transitions = oracle evaluations (incl. minimisation); nontrivial = lines whose normal form differs from the input + files changed by preprocessing. part 2 also compares, in the same two ways, %d bulk files (one map with 99, exactly 100, 101, 123 and 243 range points - the scanner hands range-point lines over in chunks of 100 -, IPv6 subnets, three and five maps, pass-through output of 600 bytes and 40 KB around a large map: beyond the reader's 512-byte and io.Copy's 32 KB buffers; all on the database and on the parsed stream) and %d lexical files: %d base lines (SOA with/without serial, subnet with/without map, A, TXT, a range-point line, the 1-byte lines Z %% + # !, 2-byte lines, the empty line) x %d prefixes (none, SP, SPSP, TAB) x %d suffixes (none, SP, TAB, CR, CRCR, ',') x contexts alone / after a subnet line / last without final newline, on the parsed stream and %d of them (line alone) on the database; reported are the minimal failing decorations per base line."+schedRule, maxExtras, db.kAll, len(palphabet), db.kCore, len(db.core), kMem, xs.bulkFiles, xs.lexFiles, len(xBases), len(xPrefixes), len(xSuffixes), xs.dbFiles-xs.bulkFiles))
+	r.Set("rule", fmt.Sprintf("part 1: for each of the 17 line types, every vector of the core option lattice (each optional field absent / explicitly default / other value, separator ',' or ':', trailing empty fields trimmed or written) plus every vector with 1..%d fields carrying an edge value (escaped bytes, wildcard, upper case, trailing/doubled dot, root, IPv6 / IPv4-mapped, 0/1/max/overflow, escaped locations ...) over the all-absent, all-default and all-other contexts; each line decoded, re-serialised, re-decoded and compiled by the real codec under 4 configurations (v1/v2 keys x CDB-style/RocksDB-style codec) with a fresh codec per decode; failing vectors are minimised by resetting options to the base. part 2: real RocksDB (v1 and v2 keys) compiled before and after the real Codec.Preprocess and the raw dumps compared for every set of <=%d lines of the %d-line alphabet plus every set of <=%d lines of its %d-line core, each set written once in alphabet order (one %% line per map, the indented %% line, the SOA serial variants, one ordinary line); the same comparison on the parsed key/value stream (dnsdata.Parse with the compiler's codec) for every sequence of <=%d lines of the full alphabet. states = distinct lines + files; transitions = oracle evaluations (incl. minimisation); nontrivial = lines whose normal form differs from the input + files changed by preprocessing. part 2 also compares, in the same two ways, %d bulk files (one map with 99, exactly 100, 101, 123 and 243 range points - the scanner hands range-point lines over in chunks of 100 -, IPv6 subnets, three and five maps, pass-through output of 600 bytes and 40 KB around a large map: beyond the reader's 512-byte and io.Copy's 32 KB buffers; all on the database and on the parsed stream) and %d lexical files: %d base lines (SOA with/without serial, subnet with/without map, A, TXT, a range-point line, the 1-byte lines Z %% + # !, 2-byte lines, the empty line) x %d prefixes (none, SP, SPSP, TAB) x %d suffixes (none, SP, TAB, CR, CRCR, ',') x contexts alone / after a subnet line / last without final newline, on the parsed stream and %d of them (SOA, subnet and the 1-byte Z line alone, every suffix) on the database; reported are the minimal failing decorations per base line."+schedRule, maxExtras, db.kAll, len(palphabet), db.kCore, len(db.core), kMem, xs.bulkFiles, xs.lexFiles, len(xBases), len(xPrefixes), len(xSuffixes), xs.dbFiles-xs.bulkFiles))
 	r.Assume = append(r.Assume,
 		"well-formed = the field layouts of tinydns-data as implemented by dnsdata (docs/data_format.md), values drawn from the variant lists in lattice.go",
 		"the compiled meaning of a line includes the codec accumulator output (prefix sets / range points) of a codec that saw only that line",
